@@ -1100,6 +1100,52 @@ def avg_rate(ctx, which=(FB, FF)):
                    % (M.kind, role, cols), f=f, node=real[0] if hasattr(real[0], 'lineno') else call,
                    key='%s-%s' % (M.kind, role),
                    why='%s filter, readings for the %s model: %s' % (M.kind, role, '; '.join(why)))
+        # time-label batches (feedforward): the rows in (t0, t1] with time_delta = t1 - t0
+        bases = set()
+        for role in ('gyro', 'accel'):
+            e = b[role]
+            if isinstance(e, ast.Name):
+                for s_ in ast.walk(M.loop):
+                    if isinstance(s_, ast.Assign) and isinstance(s_.targets[0], ast.Name) and \
+                            s_.targets[0].id == e.id:
+                        for x in ast.walk(s_.value):
+                            if isinstance(x, ast.Subscript) and isinstance(x.value, ast.Name):
+                                bases.add(x.value.id)
+        for bn in sorted(bases):
+            bd = [s_ for s_ in ast.walk(M.loop) if isinstance(s_, ast.Assign) and
+                  isinstance(s_.targets[0], ast.Name) and s_.targets[0].id == bn]
+            if len(bd) != 1:
+                continue
+            v = bd[0].value
+            if not (isinstance(v, ast.Subscript) and isinstance(v.value, ast.Attribute) and
+                    v.value.attr == 'loc' and isinstance(v.slice, ast.Slice)):
+                continue          # positional batches are judged by SCHED-HANDOVER
+            td = b['time_delta']
+            tdd = None
+            if isinstance(td, ast.Name):
+                ds = [s_ for s_ in M.loop.body if isinstance(s_, ast.Assign) and
+                      isinstance(s_.targets[0], ast.Name) and s_.targets[0].id == td.id]
+                if len(ds) == 1 and isinstance(ds[0].value, ast.BinOp) and \
+                        isinstance(ds[0].value.op, ast.Sub):
+                    tdd = ds[0].value
+            ctx.need(tdd is not None, '%s: time_delta is not a difference of two times' % f.name)
+            t1, t0 = norm_text(tdd.left), norm_text(tdd.right)
+            lo, hi = v.slice.lower, v.slice.upper
+            why = []
+            if hi is None or norm_text(hi) != t1:
+                why.append('the batch ends at `%s` while the interval ends at `%s`'
+                           % (norm_text(hi) if hi is not None else 'the last row', t1))
+            oklo = isinstance(lo, ast.Call) and (M.res(lo.func) or '') == 'numpy.nextafter' and \
+                len(lo.args) == 2 and norm_text(lo.args[0]) == t0 and norm_text(lo.args[1]) == t1
+            if not oklo:
+                why.append('the batch starts at `%s`, not just after the start of the interval '
+                           '(np.nextafter(%s, %s)): the increment stamped at %s belongs to the '
+                           'previous interval' % (norm_text(lo) if lo is not None else 'the first '
+                                                  'row', t0, t1, t0))
+            n_ob += 1
+            ctx.ob('AVG-RATE', not why, None, '%s: averaged batch = increments in (%s, %s]'
+                   % (M.kind, t0, t1), f=f, node=bd[0], key='%s-batch' % M.kind,
+                   why='%s filter: %s' % (M.kind, '; '.join(why)))
     ctx.floor('AVG-RATE', n_ob, 2 * len(which), 'averaged readings')
 
 
